@@ -378,6 +378,18 @@ func c15DiffClass(a, b *c15Res) string {
 // compositionality (7)
 
 func c15Compose(c *wk.Case, gen, a, b string, ra, rb *c15Res) {
+	c15ComposeCls(c, gen, "", a, b, ra, rb)
+}
+
+// c15ComposeCls is c15Compose for generators that know which class of text they feed in: cls (when not
+// empty) is appended to the signature of a violation, so that one defect of the parser shows under one
+// signature whatever the individual characters of the text were, and defects about different classes of
+// text under different ones. The oracle is the same. It returns the result of parsing A+"\n"+B and
+// whether the law held (false: a violation was reported).
+func c15ComposeCls(c *wk.Case, gen, cls, a, b string, ra, rb *c15Res) (*c15Res, bool) {
+	if cls != "" {
+		cls = ":" + cls
+	}
 	ab := a + "\n" + b
 	c.Begin(c15BeginInput(gen, ab))
 	rab := c15Parse(ab, c15CPUBudget, true)
@@ -387,16 +399,16 @@ func c15Compose(c *wk.Case, gen, a, b string, ra, rb *c15Res) {
 	c.Tag("gen:" + gen)
 	in := map[string]interface{}{"gen": gen, "A": c15Clip(a), "B": c15Clip(b)}
 	if !c15Judge(c, gen, ab, rab) {
-		return
+		return rab, false
 	}
 	if !rab.ok {
-		c.Violation("compose:concat-fails:"+c15MsgClass(rab.pe.Message), fmt.Sprintf("A and B parse alone but A+\"\\n\"+B fails: %q at %d:%d", rab.pe.Message, rab.pe.Pos.Line, rab.pe.Pos.Column), in)
-		return
+		c.Violation("compose:concat-fails:"+c15MsgClass(rab.pe.Message)+cls, fmt.Sprintf("A and B parse alone but A+\"\\n\"+B fails: %q at %d:%d", rab.pe.Message, rab.pe.Pos.Line, rab.pe.Pos.Column), in)
+		return rab, false
 	}
 	sab := astx.StmtList(rab.tree)
 	if len(sab) != len(sa)+len(sb) {
-		c.Violation("compose:statement-count", fmt.Sprintf("stmts(A)=%d stmts(B)=%d but stmts(A+\"\\n\"+B)=%d", len(sa), len(sb), len(sab)), in)
-		return
+		c.Violation("compose:statement-count"+cls, fmt.Sprintf("stmts(A)=%d stmts(B)=%d but stmts(A+\"\\n\"+B)=%d", len(sa), len(sb), len(sab)), in)
+		return rab, false
 	}
 	shift := strings.Count(a, "\n") + 1
 	for i, s := range sab {
@@ -407,20 +419,21 @@ func c15Compose(c *wk.Case, gen, a, b string, ra, rb *c15Res) {
 			part, alone, sh = "second", sb[i-len(sa)], shift
 		}
 		if got, want := astx.Dump(s, astx.Opts{}), astx.Dump(alone, astx.Opts{}); got != want {
-			c.Violation("compose:"+part+"-part-structure:"+reflect.TypeOf(s).String(),
+			c.Violation("compose:"+part+"-part-structure:"+reflect.TypeOf(s).String()+cls,
 				fmt.Sprintf("statement %d of A+\"\\n\"+B: got %s want %s", i, c15ClipS(got, 400), c15ClipS(want, 400)), in)
-			return
+			return rab, false
 		}
 		if typ, msg := c15PosDiff(s, alone, sh); msg != "" {
-			c.Violation("compose:"+part+"-part-position:"+typ,
+			c.Violation("compose:"+part+"-part-position:"+typ+cls,
 				fmt.Sprintf("statement %d of A+\"\\n\"+B (B's lines shifted by %d): %s; got %s", i, shift, msg, c15ClipS(astx.Dump(s, astx.Opts{Pos: true}), 400)), in)
-			return
+			return rab, false
 		}
 		c.Tag("composed-stmt:" + strings.TrimPrefix(reflect.TypeOf(s).String(), "*ast."))
 	}
 	if c.WantSample() && len(ab) < 200 && len(sa) > 0 && len(sb) > 0 {
 		c.Sample(map[string]interface{}{"gen": gen, "A": a, "B": b, "observed": fmt.Sprintf("%d+%d statements, B shifted by %d lines: equal dumps", len(sa), len(sb), shift)})
 	}
+	return rab, true
 }
 
 // c15PosDiff compares the positions of all nodes of two structurally equal statements: every node of
@@ -1590,9 +1603,9 @@ func init() {
 	wk.Register(&wk.Engine{
 		ID: "C15",
 		Plan: func(tier string) fw.Plan {
-			nFuzz, nPairs, nRace, nTypes := 1200, 400, 64, 300
+			nFuzz, nPairs, nRace, nTypes, nBlankChains := 1200, 400, 64, 300, 100
 			if tier == "thorough" {
-				nFuzz, nPairs, nRace, nTypes = 40000, 10000, 1200, 10000
+				nFuzz, nPairs, nRace, nTypes, nBlankChains = 40000, 10000, 1200, 10000, 5000
 			}
 			nCorpus := len(corpus.Scripts())
 			return fw.Plan{
@@ -1603,6 +1616,7 @@ func init() {
 					"phase corpus: every script of the repository's corpus, every prefix and every suffix of it, CRLF/CR variants. phase fuzz: token soup, byte soup, grammar-generated programs, 1-3 mutations of a corpus script (delete/duplicate/swap/replace/truncate/bracket insert+remove/splice/insert byte/newline variation/blank-run variation/junk); generated programs and token soup spell the receive assignment with every target form and every white space (none, blanks, tab, LF, CRLF, several) between '=' and '<-'. " +
 					"phase recvassign: deterministic list - every target form x every gap between '=' and '<-' (none, blank, tab, LF, CRLF, CR, several line breaks with indentation, FF, VT, NBSP, NEL, U+2028, U+3000, comments with and without line breaks) x receive operands; each spelling alone, in " + strconv.Itoa(len(c15RecvErrCtx)) + " contexts that put a syntax/lexer error behind it (same line, next line, after an empty line, after a longer or shorter line, inside blocks, twice in a row) and at every truncation, judged by the error-position oracle; each spelling (bare and inside blocks/statement lists) that parses alone is composed with " + strconv.Itoa(len(c15RecvPartners)) + " partner texts in both orders as in phase edgepairs. " +
 					"phase openends: deterministic list - every operator, keyword and atom at the end of " + strconv.Itoa(len(c15OpenStems)) + " stems x gap (none, blank, line break) x " + strconv.Itoa(len(c15OpenTails)) + " tails (all of them behind " + strconv.Itoa(c15OpenStemsFull) + " stems, " + strconv.Itoa(len(c15OpenTailsCore)) + " - one of every kind - behind the others; unterminated raw string/string/char/block comment at EOF, at a line end, after a backslash; half-written numbers, '..', stray and invalid bytes; control group: the terminated counterparts, line comments, plain operands); every text is judged by the totality/position/determinism oracles, and each one that parses alone - whatever it ends in - is the first part of a concatenation with " + strconv.Itoa(len(c15OpenPartners)) + " partner texts (containing back quotes, quotes, comment ends, several lines) and the second part with 3 of them. The same composition is applied to every prefix of a corpus script that parses alone (phase corpus, one partner each), to every fuzz input that parses alone, and to 30 open-end mutants per fuzz case (cut inside a quoted token, closing quote removed, open tail after an '=' or after any token, unterminated raw string in front of the rest of the text). " +
+					"phase blanks: characters that are blank, invisible or padding for some layer but not for the scanner (" + strconv.Itoa(len(c15WSChars)) + " of them: Unicode White_Space FF, VT, NEL, NBSP, U+1680, U+2000-200A, LS, PS, NNBSP, MMSP, IDSP; byte order marks whole, cut and as UTF-16 bytes; zero-width and format characters; NUL, SUB, EOT, FS-US, BS, DEL; the Latin-1 bytes 85 and A0) - one deterministic case per character: texts made only of it (alone, repeated, runs of 1000, with the scanner's blanks, CR, LF and CRLF around and between, with a second such character), the character next to terminators and comments in texts without a statement, at the start, at the end, at both ends, on a line of its own before/after/between, next to a ';' and between the tokens of " + strconv.Itoa(len(c15WSStems)) + " valid stems, and - control group - inside strings, raw strings and comments; every text is judged by the totality/position/determinism oracles, and each one that parses alone is composed with " + strconv.Itoa(len(c15WSPartners)+1) + " partners (empty, newline, blanks, comments, ';', statements over one and several lines, the character inside a string and a comment), with itself and with a slice of the corpus, in both orders, the texts made only of such characters also with three more texts of that kind; then PRNG cases of 20 chains each: 2-5 pieces (runs of such characters mixed with blanks and line breaks, blank runs, empty, comment-only, terminator-only, valid texts, valid texts with such a run at an end, on a line of its own, behind a ';' or between two tokens) folded from the left or from the right - whenever the text so far and the next piece both parse alone the clause is applied to them, and the joined text is the text so far of the next step (a text embedded in a longer source). " +
 					"phase edgepairs: complete square of hand-written valid edge texts and edge x corpus both ways; phase pairs: PRNG pairs (corpus, generated, mutated-but-valid, edge) — A, B parse alone => A+\"\\n\"+B parses to stmts(A)++stmts(B), compared statement by statement by reflective dump with B's lines shifted by count('\\n',A)+1. " +
 					"phase race (-race build): 8 goroutines parse the same text simultaneously and different texts interleaved; every result equals the sequential one. " +
 					"An evaluation is non-trivial when the text is not blank (pairs: both sides have >=1 statement); distinct = distinct text (pair).",
@@ -1612,6 +1626,7 @@ func init() {
 					"what accompanies a non-nil error (partial tree), the error message and the Fatal flag are not judged; determinism compares outcome class, tree dump with positions, and error message+position",
 					"astx.Dump (reflection over all exported fields, positions via ast.Pos) is the tree identity",
 					"which white space may stand between the '=' and the '<-' of a receive assignment is not judged (the statement is silent): a spelling that fails is judged as an error text, one that parses alone must compose like every other text",
+					"which characters are blank is not judged (the statement is silent): a text made of Unicode white space, byte order marks, zero-width or control characters - alone or around a valid text - may fail or parse; if it fails it is judged as an error text, if ParseSrc accepts it alone it is a text that parses on its own and must compose like every other, as first and as second part (violations found with such texts carry the kind of text and the class of character in their signature)",
 					"a text that ends in an unterminated string, raw string or comment is not required to fail (the statement does not say which texts are programs): if ParseSrc accepts it, it is a text that parses on its own and must compose like every other; if not, it is judged as an error text",
 				},
 				CrashIsViolation: true,
@@ -1621,6 +1636,7 @@ func init() {
 					{Name: "edgepairs", Cases: len(c15EdgeTexts), Chunk: 8, TimeoutS: 900},
 					{Name: "recvassign", Cases: c15RecvCases(), Chunk: 16, Jobs: 4, MemMB: 3072, TimeoutS: 900},
 					{Name: "openends", Cases: c15OpenCases(), Chunk: 8, Jobs: 4, MemMB: 3072, TimeoutS: 900},
+					{Name: "blanks", Cases: c15BlankDetCases() + nBlankChains, Chunk: 24, TimeoutS: 900},
 					{Name: "fuzz", Cases: nFuzz, Chunk: 25, TimeoutS: 900},
 					{Name: "pairs", Cases: nPairs, Chunk: 25, TimeoutS: 900},
 					{Name: "types", Cases: nTypes, Chunk: 25, TimeoutS: 900},
@@ -1653,6 +1669,8 @@ func init() {
 				c15RunRecvAssign(c) // c15_r5.go
 			case "openends":
 				c15RunOpenEnds(c) // c15_r6.go
+			case "blanks":
+				c15RunBlanks(c) // c15_r7.go
 			case "race":
 				c15RunRace(c)
 			}
